@@ -85,6 +85,96 @@ def core_cases(L):
                         yield c
 
 
+def dtype_case(rng):
+    """Models whose series are not float64: `dtype=int` (integer-valued scripts: a pass either repeats the values or
+    moves them by 1) and `dtype=float32` (all script values are exactly representable).  Status, iteration count,
+    result and convergence must follow the same rules."""
+    dt = rng.choice(['int', 'float32'])
+    n = rng.choice([1, 2, 3, 4])
+    nE = rng.choice([1, 2, 3])
+    check = sorted(rng.sample(range(nE), rng.choice([nE, nE, max(nE - 1, 0)])))
+    t = rng.randrange(-n, n)
+    L = rng.choice([0, 1, 2, 3, 4, 5])
+    alpha = ['same', 'istep', 'istep', 'raise', 'warn', 'keep'] if dt == 'int' else \
+        ['close', 'same', 'edge', 'far', 'one', 'nan', 'pinf', 'ninf', 'zero', 'zero', 'raise', 'warn']
+    seq = [rng.choice(alpha) for _ in range(L)]
+    M = rng.choice([0, 1, 2, 3, L, L + 1])
+    o = mkopts(rng.choice([0, 0, 1, 2, M]), M, rng.choice([0, 0, 0, -1, 1]), rng.choice(['raise', 'ignore']),
+               rng.choice(ERRORS), rng.choice([True, False]))
+    vals = [[float(rng.choice([0, 1, -2, 3, 100, i + p])) for p in range(n)] for i in range(nE)]
+    if dt == 'float32' and rng.random() < 0.2:       # pre-existing non-finite value (float32 holds them just as float64)
+        vals[rng.randrange(nE)][rng.randrange(n)] = rng.choice([float('nan'), float('inf'), float('-inf')])
+    pos = t + n if t < 0 else t
+    case = base_case(n, nE, check, t, o, {pos: seq}, vals=vals, tol=rng.choice([0.5, 0.25, 1.0]) if dt == 'int' else sc.TOL)
+    case['dtype'] = dt
+    case['span_kind'] = rng.choice(sc.SPAN_KINDS)
+    return sc.vary_implementation_side(case, rng)
+
+
+def bigint_check(rng, rep):
+    """Integer-dtype models at magnitudes where float64 can no longer tell n from n + 1 (|value| >= 2**53).  The values
+    are exact in the model's own dtype, a move of 1 is a move of 1 >= tol, so convergence must be judged exactly.
+    Outside the Lean model (whose check vectors are floats): judged here against exact integer arithmetic."""
+    base = rng.choice([0, 1000, 2 ** 53, -(2 ** 53), 2 ** 60, -(2 ** 60), 2 ** 62])
+    K = rng.choice([0, 1, 2, 5])
+    n, nE = 3, rng.choice([1, 2])
+    t = rng.choice([0, 1, 2, -1, -3])
+    pos = t + n if t < 0 else t
+    M = rng.choice([1, 2, K, K + 1, K + 3, 8])
+    m_ = rng.choice([0, 0, 1, 2])
+    if M < 1 or m_ > M:
+        return
+    o = mkopts(m_, M, 0, rng.choice(['raise', 'ignore']), 'raise', True)
+    seq = [{'k': 'iadd', 'd': rng.choice([1, 1, -1])} for _ in range(K)] + [{'k': 'keep'}] * 3
+    case = {'n': n, 'nE': nE, 'check': list(range(nE)), 'tol': bits(rng.choice([0.25, 0.5, 1.0])),
+            'script': [seq if p == pos else [] for p in range(n)], 'before': [], 'after': [],
+            'vals': [[bits(0.0)] * n for _ in range(nE)], 'status': '-' * n, 'iters': [-1] * n, 'opts': o, 't': t,
+            'dtype': 'int', 'names': rng.choice(sc.NAME_STYLES), 'prov': rng.choice(sc.PROVENANCES)}
+    m = sc.build_instance(case)
+    for nm in sc.names_of(case):
+        m.__dict__['_' + nm][:] = base
+    kw = sc.opts_kwargs(o, case['tol'])
+    with warnings.catch_warnings():
+        warnings.simplefilter('ignore')
+        try:
+            r = m.solve_t(t, **kw)
+            tag = 'ret:T' if r else 'ret:F'
+        except Exception as e:  # noqa: BLE001
+            tag = sc.exc_name(e)
+    # exact expectation: pass k moves iff k <= K; the first pass k >= max(1, min_iter) without movement is accepted
+    first_still = K + 1
+    k_acc = max(first_still, m_, 1)
+    if k_acc <= M:
+        want = ('ret:T', '.', k_acc, base + sum(a['d'] for a in seq[:K]))
+    else:
+        want = ('NonConvergenceError' if o['failures'] == 'raise' else 'ret:F', 'F', M, base + sum(a['d'] for a in seq[:min(K, M)]))
+    got = (tag, str(m.status[pos]), int(m.iterations[pos]), int(m.__dict__['_' + sc.names_of(case)[0]][pos]))
+    rep.dist['bigint:' + ('ok' if got == want else 'WRONG') + (':large' if abs(base) >= 2 ** 53 else ':small')] += 1
+    rep.case(('bigint', base, K, M, m_, t, nE), nontrivial=True)
+    if got != want:
+        rep.violate('int-dtype-convergence', f'int model at {base}: {K} unit steps then still, min_iter={m_} max_iter={M}: '
+                    f'got {got}, exact arithmetic gives {want}', {'bigint': [base, K, M, m_, t, nE], 'case': case})
+
+
+def scale_case(rng, big):
+    """Sizes a small test never reaches: hundreds or thousands of periods, dozens of variables, thousands of passes."""
+    n = rng.choice([300, 2500] if big else [120, 400])
+    nE = rng.choice([12, 40] if big else [6, 15])
+    check = list(range(nE))
+    t = rng.choice([0, 1, n // 2, n - 1, -1, -n, -(n // 3)])
+    K = rng.choice([0, 1, 7, 60, 1500 if big else 150])
+    seq = ['far'] * K + [rng.choice(['same', 'close', 'edge', 'one'])] * rng.choice([0, 1, 2])
+    M = rng.choice([K, K + 1, K + 2, max(K - 1, 0), 5000])
+    o = mkopts(rng.choice([0, 0, 2, K]), M, rng.choice([0, 0, -1, 1, n - 1, -(n - 1)]), rng.choice(['raise', 'ignore']),
+               rng.choice(['raise', 'skip', 'ignore', 'replace']), rng.choice([True, False]))
+    o['min_iter'] = min(o['min_iter'], M)
+    vals = [[float((i * 7 + p) % 13) for p in range(n)] for i in range(nE)]
+    pos = t + n if t < 0 else t
+    case = base_case(n, nE, check, t, o, {pos: seq}, vals=vals)
+    case['span_kind'] = rng.choice(sc.SPAN_KINDS)
+    return sc.vary_implementation_side(case, rng)
+
+
 def random_case(rng):
     n = rng.choice([1, 2, 3, 3, 4, 5])
     nE = rng.choice([1, 2, 2, 3])
@@ -92,6 +182,7 @@ def random_case(rng):
     t = rng.randrange(-n, n)
     L = rng.choice([0, 1, 2, 3, 4, 5])
     alpha = rng.choice([ALPHA, ['close', 'same', 'edge', 'far', 'one'], ['far', 'close', 'same', 'keep'],
+                        ['pinf', 'ninf', 'nan', 'zero', 'zero', 'same', 'close'],
                         ['huge', 'huge', 'far', 'same', 'close']])
     seq = [rng.choice(alpha) for _ in range(L)]
     M = rng.choice([-1, 0, 1, 2, 3, L, L + 1, L + 2])
@@ -382,6 +473,15 @@ def _work(ctx, rep):
     rng = ctx.sub_rng('random')
     for chunk in range(0, n_random, 5000):
         check_cases(ctx, rep, [random_case(rng) for _ in range(min(5000, n_random - chunk))], 'random')
+    rng = ctx.sub_rng('dtype')
+    n_dtype = (1200 if ctx.tier == 'quick' else 150000) * ctx.scale // ctx.parts
+    for chunk in range(0, n_dtype, 5000):
+        check_cases(ctx, rep, [dtype_case(rng) for _ in range(min(5000, n_dtype - chunk))], 'dtype')
+    rng = ctx.sub_rng('bigint')
+    for _ in range((400 if ctx.tier == 'quick' else 40000) * ctx.scale // ctx.parts):
+        bigint_check(rng, rep)
+    rng = ctx.sub_rng('scale')
+    check_cases(ctx, rep, [scale_case(rng, ctx.tier != 'quick') for _ in range((12 if ctx.tier == 'quick' else 160) * ctx.scale // ctx.parts)], 'scale')
     # natural systems
     rng = ctx.sub_rng('natural')
     nat = [natural_case(rng) for _ in range(n_natural)]
@@ -436,6 +536,11 @@ def oracle_natural(case, tag, final, calls, rec, rep):
 
 
 def replay(ctx, rep, case):
+    if 'bigint' in case:
+        import random as _r
+        for sd in range(400):       # the stream is cheap: re-run it (the stored tuple names the failing shape)
+            bigint_check(_r.Random(sd), rep)
+        return
     if 'repeat' in case:
         check_cases(ctx, rep, [case] * 5, 'replay')      # position 2 of 5 goes through the repeat stream
         return
